@@ -36,6 +36,7 @@ META = {
 META["claim"] += " " + "Also: URL host and server_hostname as IP literals, a certificate with a DNS-only SAN, the ssl_version option, and the CA-bundle environment variable combined with the caller's own ca_certs / ca_cert_path."
 META["claim"] += " " + 'Round 3b: one sslopt dict reused for a later connection after the CA-bundle environment variable changed; upper/mixed-case wss schemes against a real TLS listener (refused, or TLS from the first byte).'
 META["claim"] += " " + 'Round 4: cert_reqs=CERT_OPTIONAL (for a client the same as CERT_REQUIRED); the Host header override next to every certificate (it has no say in whom the certificate must name).'
+META["claim"] += " " + 'Rounds 6-7: cert_reqs=None; legacy ssl_version values (reject direction; no suite without authentication in the context used unless ciphers were configured); a URL host the resolver reports as an alias of another name when asked for the canonical name.'
 
 OPENSSL = shutil.which("openssl")
 
